@@ -306,21 +306,37 @@ func c02(c *Ctx) {
 	}
 	sort.Slice(fns, func(i, j int) bool { return fns[i].String() < fns[j].String() })
 	c.Extra["receive_loop_reach"] = len(fns)
-	// premise: doARP never stored
+	// premise: the switch that guards the call of handleARP in the receive loop can never become true – it is never stored
+	// AND it is unexported (the configuration decoder fills exported fields by reflection, e.g. `DoARP bool toml:"do_arp"`)
+	arpSwitch := "doARP"
+	for _, fn := range fns {
+		for _, call := range Calls(fn) {
+			if f := call.Common().StaticCallee(); f != nil && f.Name() == "handleARP" {
+				for _, dc := range DomConds(call) {
+					atom, _ := condAtom(dc.V)
+					if ld, ok := isLoad(atom); ok {
+						if fa, ok := ld.X.(*ssa.FieldAddr); ok && types.Identical(ld.Type().Underlying(), types.Typ[types.Bool]) {
+							arpSwitch = fieldNameOf(fa)
+						}
+					}
+				}
+			}
+		}
+	}
 	doARPStores := 0
 	for _, fn := range p.Funcs() {
 		for _, b := range fn.Blocks {
 			for _, in := range b.Instrs {
 				if st, ok := in.(*ssa.Store); ok {
-					if fa, ok := st.Addr.(*ssa.FieldAddr); ok && fieldNameOf(fa) == "doARP" {
+					if fa, ok := st.Addr.(*ssa.FieldAddr); ok && fieldNameOf(fa) == arpSwitch && strings.HasPrefix(RelPkg(PkgOf(fn)), canaryRel) {
 						doARPStores++
 					}
 				}
 			}
 		}
 	}
-	arpDead := doARPStores == 0
-	c.Check(arpDead, "arp-unreachable-premise", "Canary.doARP never written", "-", "ARP handling is dead in every configuration (premise for excluding it)", "Canary.doARP is now written somewhere: ARP parsing is reachable and must be analysed like the other parsers")
+	arpDead := doARPStores == 0 && !token.IsExported(arpSwitch)
+	c.Check(arpDead, "arp-unreachable-premise", "the ARP switch of the receive loop is never set", "-", "ARP handling is dead in every configuration: Canary."+arpSwitch+" is unexported and never written (premise for excluding it)", "Canary."+arpSwitch+" can now become true (it is written somewhere, or it is exported and so filled from the configuration file by the decoder): ARP parsing is reachable on the unrecovered receive loop and is analysed like the other parsers")
 	excluded := func(fn *ssa.Function) bool {
 		if !arpDead {
 			return false
